@@ -155,4 +155,27 @@ def run(ctx):
                 ctx.violation({"fn": "spec.smooth", "fw": fw, "fd": fd, "relation": "shift/mean on large grid"},
                               "smooth(%d, %d) on a %d-direction full circle: not the circular window mean / does not commute with a shift by %d bins" % (fw, fd, nd, k),
                               {"nd": nd, "nf": nf, "seed": ctx.seed})
+    # ---- "exactly the input's dimensions, coordinates and their order" for every storage order of the dimensions, through the
+    # DataArray accessor, the Dataset accessor and smooth_spec on a Dataset alike
+    dirs = np.arange(8) * 45.0
+    base = xr.DataArray(rng.randint(0, 50, size=(2, 3, 5, 8)).astype(float), coords={"time": [0, 1], "site": [0, 1, 2], "freq": np.linspace(0.05, 0.3, 5), "dir": dirs},
+                        dims=("time", "site", "freq", "dir"), name="efth")
+    ref = base.spec.smooth(3, 3)
+    for order in (("freq", "dir", "time", "site"), ("time", "dir", "freq", "site"), ("dir", "site", "time", "freq"), ("site", "freq", "time", "dir")):
+        dat = base.transpose(*order)
+        for how, fn in (("DataArray accessor", lambda x: x.spec.smooth(3, 3)), ("Dataset accessor", lambda x: x.to_dataset(name="efth").spec.smooth(3, 3)),
+                        ("smooth_spec(Dataset)", lambda x: smooth_spec(x.to_dataset(name="efth"), 3, 3)["efth"])):
+            ctx.case(("dim-order", order, how), True)
+            try:
+                out = fn(dat)
+                ok = tuple(out.dims) == tuple(order) and np.allclose(out.transpose(*base.dims).values, ref.values, rtol=1e-12, atol=1e-12) and \
+                    all(np.array_equal(np.asarray(out[d].values, float), np.asarray(dat[d].values, float)) for d in order)
+                what = "dims %s" % (tuple(out.dims),)
+            except Exception as ex:  # noqa
+                ok, what = False, "raised %s: %s" % (type(ex).__name__, str(ex)[:120])
+            if ok:
+                ctx.replayed()
+            else:
+                ctx.violation({"fn": how, "relation": "dimension order kept", "order": list(order)},
+                              "smooth through the %s on spectra stored as %s: %s" % (how, order, what))
     ctx.assume("direction spacings are whole or dyadic degrees (labels are cast to float32 inside smooth_spec); windows do not exceed the grid size")
